@@ -64,7 +64,7 @@ class ScopeDoc:
 
 
 class Gen:
-    def __init__(self, seed: int, base: int = 0, *, with_frames=True, inherits=True, rec_sets=True, nested=True, applied=True, chains=True, with_shadowing_let=True, nested_rec=True, dup_layers=True, same_layer_src=True):
+    def __init__(self, seed: int, base: int = 0, *, with_frames=True, inherits=True, rec_sets=True, nested=True, applied=True, chains=True, with_shadowing_let=True, nested_rec=True, dup_layers=True, same_layer_src=True, named_with=True):
         self.r = random.Random(seed)
         self.n = base
         self.uid = 0
@@ -78,6 +78,7 @@ class Gen:
         self.nested_rec = nested_rec
         self.dup_layers = dup_layers
         self.same_layer_src = same_layer_src
+        self.named_with = named_with
 
     def fresh(self):
         self.n += 1
@@ -89,11 +90,11 @@ class Gen:
 
     def let_layer(self):
         r = self.r
-        names = r.sample(POOL + ["src"], r.randint(1, 3))
+        names = r.sample(POOL + ["src"] + (["e"] if self.named_with else []), r.randint(1, 3))
         bs = []
         for nm in names:
             x = r.random()
-            if nm == "src" or x < 0.15:
+            if nm in ("src", "e") or x < 0.15:
                 lit = SetLit([self.mk(k, "int", self.fresh()) for k in r.sample(POOL, r.randint(1, 2))])
                 bs.append(self.mk(nm, "set", lit))
             elif x < 0.45 and self.chains:
@@ -170,7 +171,13 @@ class Gen:
         for _ in range(r.choice([0, 1, 1, 2, 2, 3, 4])):
             lets = [w for w in wrappers if w.kind == "let"]
             if self.with_frames and r.random() < 0.3:
-                wrappers.append(self.with_env())
+                if self.named_with and lets and r.random() < 0.4:
+                    # `with e;` — the environment is a name that an enclosing let binds to a set literal
+                    if not any(b.name == "e" for w in lets for b in w.bindings):
+                        r.choice(lets).bindings.append(self.mk("e", "set", SetLit([self.mk(k, "int", self.fresh()) for k in r.sample(POOL, r.randint(1, 3))])))
+                    wrappers.append(Frame("with", [], env_name="e"))
+                else:
+                    wrappers.append(self.with_env())
             elif self.dup_layers and lets and r.random() < 0.15:
                 wrappers.append(self.copy_layer(r.choice(lets)))
             else:
@@ -181,7 +188,7 @@ class Gen:
             for w in wrappers:
                 if w.kind == "with":
                     w.bindings = [b for b in w.bindings if b.name not in let_names]
-            wrappers = [w for w in wrappers if w.kind != "with" or w.bindings]
+            wrappers = [w for w in wrappers if w.kind != "with" or w.bindings]  # (also drops `with e;` frames)
         target = self.set_frame(2)
         d = ScopeDoc(wrappers, target)
         if self.applied and r.random() < 0.12:
@@ -189,14 +196,15 @@ class Gen:
             d.wrappers = []
             names = r.sample(POOL, r.randint(1, 3))
             for nm in names:
+                quoted = r.random() < 0.3  # the call site may spell the attribute `"a" = …;`
                 if r.random() < 0.5:
                     d.formals.append((nm, None))
-                    d.args.append((nm, self.fresh()))
+                    d.args.append((nm, self.fresh(), quoted))
                 else:
                     dflt = self.fresh()
                     d.formals.append((nm, dflt))
                     if r.random() < 0.5:
-                        d.args.append((nm, self.fresh()))
+                        d.args.append((nm, self.fresh(), quoted))
         return d
 
 
@@ -214,7 +222,9 @@ def _print_bindings(bs, ind, out):
         elif b.kind == "inherit":
             out.append(f"{pad}inherit {b.name};")
         elif b.kind == "inherit_from":
-            out.append(f"{pad}inherit ({b.value}) {b.name};")
+            # now and then a quoted name listed in front of the referenced one (uid-derived, stable per document)
+            decoy = '"x-y" ' if b.uid % 3 == 0 else ""
+            out.append(f"{pad}inherit ({b.value}) {decoy}{b.name};")
         elif b.kind == "set":
             lit = b.value
             out.append(f"{pad}{b.name} = {'rec ' if lit.rec else ''}{{")
@@ -231,8 +241,8 @@ def render(d: ScopeDoc) -> str:
         _print_bindings(d.target.bindings, 2, out)
         out.append("})")
         out.append("{")
-        for n, v in d.args:
-            out.append(f"  {n} = {v};")
+        for n, v, *q in d.args:
+            out.append(f'  "{n}" = {v};' if q and q[0] else f"  {n} = {v};")
         out.append("}")
         return "\n".join(out) + "\n"
     for w in d.wrappers:
@@ -240,6 +250,8 @@ def render(d: ScopeDoc) -> str:
             out.append("let")
             _print_bindings(w.bindings, 2, out)
             out.append("in")
+        elif w.env_name:
+            out.append(f"with {w.env_name};")
         else:
             out.append("with {")
             _print_bindings(w.bindings, 2, out)
@@ -266,7 +278,7 @@ class Resolver:
         chain = []
         if self.d.applied:
             fb = []
-            args = dict(self.d.args)
+            args = {a[0]: a[1] for a in self.d.args}
             for n, dv in self.d.formals:
                 if n in args:
                     fb.append(B(n, "int", args[n], -1))
@@ -300,9 +312,16 @@ class Resolver:
         for i, fr in reversed(frames):
             if fr.kind != "with":
                 continue
-            for b in fr.bindings:
+            bindings, inner_chain = fr.bindings, chain[: i + 1]
+            if fr.env_name:
+                # the environment name is resolved where the `with` stands; an unresolvable environment makes
+                # every lookup that reaches it fail
+                env, _b = self.lookup_set(fr.env_name, chain[:i], seen, depth + 1)
+                bindings = env.bindings
+                inner_chain = chain[:i] + [Frame("with", bindings)]
+            for b in bindings:
                 if b.name == name:
-                    return self._follow(b, chain[: i + 1], seen, depth)
+                    return self._follow(b, inner_chain, seen, depth)
         raise Unbound(name)
 
     def _follow(self, b, chain, seen, depth):
